@@ -10,6 +10,8 @@ package main
 //	//@ loop 1 invariant [k] <expr>
 //	//@ loop 1 decreases <expr>
 //	//@ inputsize <expr>
+//	//@ trigger <term>, <term>  (on a lemma function: once its contract is proved, `requires ==> ensures`
+//	//                         is given to all other functions as an axiom instantiated on these terms)
 //	//@ lemma [k] <expr>      (auxiliary fact at every return, may mention locals; proved, then
 //	//                         available to the lemmas and ensures clauses that follow it)
 //	//@ inline | trusted
@@ -58,6 +60,7 @@ type Contract struct {
 	Modifies  []*Clause
 	Loops     map[int][]*Clause
 	InputSize *Clause
+	Trigger   *Clause // lemma function: its contract, once proved, is available as an axiom with these trigger terms
 	Inline    bool
 	Trusted   bool
 	Fresh     bool // result pointers are freshly allocated
@@ -112,6 +115,8 @@ func parseContractFile(path, pkgPath string) ([]*Contract, error) {
 			cur.Modifies = append(cur.Modifies, cl)
 		case "inputsize":
 			cur.InputSize = cl
+		case "trigger":
+			cur.Trigger = cl
 		}
 		return nil
 	}
@@ -150,7 +155,7 @@ func parseContractFile(path, pkgPath string) ([]*Contract, error) {
 		case "func":
 			cur = &Contract{Func: pkgPath + "." + strings.TrimSpace(rest), Loops: map[int][]*Clause{}, File: path, Nullable: map[string]bool{}, Outbuf: map[string]bool{}}
 			out = append(out, cur)
-		case "requires", "ensures", "modifies", "inputsize", "lemma":
+		case "requires", "ensures", "modifies", "inputsize", "lemma", "trigger":
 			if cur == nil {
 				return nil, fmt.Errorf("%s:%d: clause outside func block", path, ln+1)
 			}
@@ -274,7 +279,7 @@ func (cl *Clause) parse() error {
 	if i := strings.Index(t, " // "); i >= 0 {
 		t = t[:i]
 	}
-	if cl.Kind == "modifies" {
+	if cl.Kind == "modifies" || cl.Kind == "trigger" {
 		for _, piece := range splitTop(t, ',') {
 			e, err := parser.ParseExpr(rewriteSpec(piece))
 			if err != nil {
